@@ -1,7 +1,9 @@
 (* C17 — NVAR, Delay and Concat compute their documented window functions.
    Statement-only file: every theorem is closed by [exact <lemma>]; proofs live in proofs/Windows_proofs.v. *)
 From Coq Require Import List Arith Sorted QArith.
-From RV Require Import base.Num base.LA model.Windows proofs.Windows_proofs.
+From Coq Require Import Permutation.
+From Coq Require String.
+From RV Require Import base.Num base.LA model.Windows proofs.Windows_proofs proofs.Fanin_proofs.
 Import ListNotations.
 Close Scope Q_scope.
 
@@ -52,6 +54,17 @@ Proof. exact eq_refl. Qed.
 
 Theorem C17_concat (a b : list vec) : concat_forward (a ++ b) = concat_forward a ++ concat_forward b.
 Proof. exact (concat_forward_app a b). Qed.
+
+(* "in one fixed order": inside a model the parents of a node are concatenated in the order of the keys
+   parent.name + child.name; that order - hence the concatenation - does not depend on the order in which the
+   edges were created, and every parent's output appears exactly once. *)
+Theorem C17_fanin_order_independent (child : String.string) (ps ps' : list (String.string * vec)) :
+  Permutation ps ps' -> NoDup (map (fun p => String.append (fst p) child) ps) ->
+  fanin_concat child ps = fanin_concat child ps'.
+Proof. exact (fanin_concat_order_independent child ps ps'). Qed.
+Theorem C17_fanin_each_once (child : String.string) (ps : list (String.string * vec)) :
+  Permutation (map snd (sort_keys (map (fun p => (String.append (fst p) child, snd p)) ps))) (map snd ps).
+Proof. exact (fanin_concat_each_once child ps). Qed.
 End C17.
 
 Theorem C17_cwr_spec (n k : nat) :
@@ -75,4 +88,6 @@ Print Assumptions C17_nvar_output.
 Print Assumptions C17_nvar_linear.
 Print Assumptions C17_nvar_monomials.
 Print Assumptions C17_concat.
+Print Assumptions C17_fanin_order_independent.
+Print Assumptions C17_fanin_each_once.
 Print Assumptions C17_cwr_spec.
